@@ -15,8 +15,8 @@ RULE = ("hx-loop runs the real bench_loop_threaded with sample_size unset under 
 ASSUMPTIONS = [
     "Timer::precision() is taken as given (override); its measurement is C11's subject",
     "sizes stay below 2^31 (the u32 doubling overflows after 31 rounds; it would take 2^31 iterations within 100x the precision)",
-    "allocation data of discarded rounds: the model clears alloc_info_by_sample with the samples; the harness runs without AllocProfiler, "
-    "so on the implementation side only the key set (empty) is compared",
+    "allocation data: the harness installs AllocProfiler as its global allocator and the benchmarked call allocates/frees a scripted number "
+    "of Box<u64>; the per-sample tallies in the dump (index, alloc count/bytes, dealloc count, grow, shrink) are compared with the model's map",
 ]
 TRUSTED = ["tools/props/loop_common.py (case generators; its Python rendering of the loop only aims cases at boundaries)"]
 CONSTS_USED = ["tune_threshold", "tune_factor", "default_sample_count", "max_time_cmp_is_ge", "min_time_cmp_is_lt", "min_progress_picos"]
